@@ -21,7 +21,8 @@ RULE = ("(sim) Hypothesis generates session lists (both flags, maxNormalOrders 0
         "order not constant over >=30 full steps. Non-trivial = run whose sessions cover >=2 flag combinations, or with "
         "high-frequency groups and a binding cap. (order) 40-60 step runs with 3-5 never-capped normal agents: the consultation order must vary and every agent must come first at least once. (rate) long single-session runs at rate r in {0.2,0.5,0.8}: group "
         "frequency within 6 binomial sigma of r.")
-ASSUMPTIONS = ["a consultation of a high-frequency agent is observable only when the cap is > 0 (otherwise the loop never asks)",
+ASSUMPTIONS = ["'HFT interleaving' (the property's title) is read as: what a high-frequency agent returns is accepted before the next agent is consulted; the statement fixes when and how many are consulted and would also be met by a runner that collects their orders first",
+               "a consultation of a high-frequency agent is observable only when the cap is > 0 (otherwise the loop never asks)",
                "the round-follows-acceptance predicate is not applied to runs that configure a TradingHaltRule (C16 models those)"]
 
 OPTS = {"exec_state": True}
